@@ -372,24 +372,90 @@ theorem C11_error_kinds_at_most_two (B : Build) (a b c : List Piece) (args : Lis
   refine ⟨?_, ?_, ?_, ?_⟩ <;>
     (rw [compile_arg]; simp [dateChunk, mdcChunk, groupOfName, leafOfName, leafTable, leafLookup, eAtMostTwo])
 
-/-- a time zone other than `utc` / `local` (the date format itself being acceptable) -/
-theorem C11_error_kinds_bad_timezone (B : Build) (fmt : List Piece) (z : List Char) (rest : List Piece)
+/-- a time zone whose FIRST piece is text other than `utc` / `local` (the date format itself being
+acceptable) — the code as it is (`tzWholeArg = false`) -/
+theorem C11_error_kinds_bad_timezone (B : Build) (hB : B.tzWholeArg = false) (n : List Char)
+    (hn : n = cs!"d" ∨ n = cs!"date") (fmt : List Piece) (z : List Char) (rest : List Piece)
     (p : Params) (hf : B.dateCheck = false ∨ B.dateOk (dateFormatOf fmt) = true)
     (h1 : z ≠ cs!"utc") (h2 : z ≠ cs!"local") :
-    compile B (.arg ['d'] [fmt, .text z :: rest] p) = .error (cs!"invalid timezone `" ++ z ++ ['`']) := by
-  rw [compile_arg]
-  rcases hf with hf | hf <;>
-    simp [dateChunk, dateFormatArg, hf, timezoneOf, h1, h2, eInvalidTimezoneNamed]
+    compile B (.arg n [fmt, .text z :: rest] p) = .error (cs!"invalid timezone `" ++ z ++ ['`']) := by
+  rw [compile_dateName B n hn, dateChunk_zone B fmt _ p hf]
+  simp [tzOf, hB, timezoneOf, h1, h2, eInvalidTimezoneNamed]
 
-/-- an empty time zone argument, or one that does not start with text -/
-theorem C11_error_kinds_invalid_timezone (B : Build) (fmt : List Piece) (p : Params)
+/-- an empty time zone argument, or one that does not START with text -/
+theorem C11_error_kinds_invalid_timezone (B : Build) (hB : B.tzWholeArg = false) (n : List Char)
+    (hn : n = cs!"d" ∨ n = cs!"date") (fmt : List Piece) (p : Params)
     (hf : B.dateCheck = false ∨ B.dateOk (dateFormatOf fmt) = true) :
-    compile B (.arg ['d'] [fmt, []] p) = .error cs!"invalid timezone" ∧
-    (∀ n a q rest, compile B (.arg ['d'] [fmt, .arg n a q :: rest] p) = .error cs!"invalid timezone") ∧
-    (∀ e rest, compile B (.arg ['d'] [fmt, .error e :: rest] p) = .error cs!"invalid timezone") := by
+    compile B (.arg n [fmt, []] p) = .error cs!"invalid timezone" ∧
+    (∀ m a q rest, compile B (.arg n [fmt, .arg m a q :: rest] p) = .error cs!"invalid timezone") ∧
+    (∀ e rest, compile B (.arg n [fmt, .error e :: rest] p) = .error cs!"invalid timezone") := by
   refine ⟨?_, ?_, ?_⟩ <;> intros <;>
-    (rw [compile_arg]; rcases hf with hf | hf <;>
-      simp [dateChunk, dateFormatArg, hf, timezoneOf, eInvalidTimezone])
+    (rw [compile_dateName B n hn, dateChunk_zone B fmt _ p hf]
+     simp [tzOf, hB, timezoneOf, eInvalidTimezone])
+
+/-! ### FINDING `C11/timezone-junk-accepted`: the zone argument is judged by its first piece only -/
+
+/-- the statement's clause "invalid time zones … are surfaced", at the level of `From<Piece>`: a
+zone argument that is not — read whole — the text `utc` or `local` yields an error chunk -/
+def C11_invalid_timezone_surfaces (B : Build) : Prop :=
+  ∀ (n : List Char) (fmt z : List Piece) (p : Params), (n = cs!"d" ∨ n = cs!"date") →
+    (B.dateCheck = false ∨ B.dateOk (dateFormatOf fmt) = true) → zoneArgValid z = false →
+    ∃ e, compile B (.arg n [fmt, z] p) = .error e
+
+/-- FALSE of the current code: `(utc}x)` — pieces `utc`, the syntax error `unmatched '}'`, `x` — is
+accepted as `utc`, the error piece is dropped. -/
+theorem C11_invalid_timezone_surfaces_false (B : Build) (hB : B.tzWholeArg = false)
+    (hf : B.dateCheck = false ∨ B.dateOk cs!"%Y" = true) : ¬ C11_invalid_timezone_surfaces B := by
+  intro h
+  obtain ⟨e, he⟩ := h ['d'] [.text cs!"%Y"] [.text cs!"utc", .error cs!"unmatched '}'", .text ['x']] {}
+    (Or.inl rfl) (by simpa [dateFormatOf] using hf) (by decide)
+  rw [compile_dateName B _ (Or.inl rfl), dateChunk_zone B _ _ _ (by simpa [dateFormatOf] using hf)] at he
+  simp [tzOf, hB, timezoneOf] at he
+
+/-- … end to end: `{d(%Y)(utc}x)}` constructs a plain UTC date chunk, no marker anywhere. -/
+theorem C11_timezone_junk_witness (B : Build) (hB : B.tzWholeArg = false) (hs : B.itemsScan = false)
+    (h : B.renderOk cs!"%Y" = true) :
+    newEncoder asciiClass Profile.debug64 B cs!"{d(%Y)(utc}x)}" = .ok [.leaf (.time cs!"%Y" true) {}] := by
+  have hp : parse asciiClass Profile.debug64 cs!"{d(%Y)(utc}x)}" =
+      .ok [.arg ['d'] [[.text cs!"%Y"], [.text cs!"utc", .error cs!"unmatched '}'", .text ['x']]] {}] := by rfl
+  simp only [newEncoder, hp, omap, compileL_cons, compileL_nil]
+  rw [compile_dateName B _ (Or.inl rfl),
+    dateChunk_zone B _ _ _ (Or.inr (by simp [dateFormatOf, Build.dateOk, hs, h]))]
+  simp [tzOf, hB, timezoneOf, dateFormatOf]
+
+/-- PARTIAL (current code): the clause holds when the FIRST piece of the argument already is not
+the text `utc` / `local`. -/
+theorem C11_invalid_timezone_surfaces_partial (B : Build) (hB : B.tzWholeArg = false) (n : List Char)
+    (hn : n = cs!"d" ∨ n = cs!"date") (fmt z : List Piece) (p : Params)
+    (hf : B.dateCheck = false ∨ B.dateOk (dateFormatOf fmt) = true)
+    (h1 : ∀ rest, z ≠ .text cs!"utc" :: rest) (h2 : ∀ rest, z ≠ .text cs!"local" :: rest) :
+    ∃ e, compile B (.arg n [fmt, z] p) = .error e := by
+  rw [compile_dateName B n hn, dateChunk_zone B fmt z p hf]
+  cases z with
+  | nil => exact ⟨eInvalidTimezone, by simp [tzOf, hB, timezoneOf]⟩
+  | cons q rest =>
+    cases q with
+    | text t =>
+      have ht1 : t ≠ cs!"utc" := fun h => h1 rest (by rw [h])
+      have ht2 : t ≠ cs!"local" := fun h => h2 rest (by rw [h])
+      exact ⟨eInvalidTimezoneNamed t, by simp [tzOf, hB, timezoneOf, ht1, ht2]⟩
+    | arg m a q' => exact ⟨eInvalidTimezone, by simp [tzOf, hB, timezoneOf]⟩
+    | error e => exact ⟨eInvalidTimezone, by simp [tzOf, hB, timezoneOf]⟩
+
+/-- With the proposed repair (`tzWholeArg`: the argument read whole through `plain_text`) the clause
+holds in full; a syntax error inside the argument surfaces as itself. -/
+theorem C11_invalid_timezone_surfaces_repaired (B : Build) (hB : B.tzWholeArg = true) :
+    C11_invalid_timezone_surfaces B := by
+  intro n fmt z p hn hf hz
+  rw [compile_dateName B n hn, dateChunk_zone B fmt z p hf]
+  unfold zoneArgValid at hz
+  simp only [tzOf, hB, if_true, timezoneOfWhole]
+  cases hpt : plainTextOf eInvalidTimezone z with
+  | error e => exact ⟨e, rfl⟩
+  | ok t =>
+    rw [hpt] at hz
+    simp only [Bool.or_eq_false_iff, decide_eq_false_iff_not] at hz
+    exact ⟨eInvalidTimezoneNamed t, by simp [hz.1, hz.2]⟩
 
 /-- MDC without a key, with an empty key, with a formatter inside the key, or with a syntax
 error inside the key (repaired `plain_text`: anywhere in the argument) -/
